@@ -233,13 +233,15 @@ class StampRun:
                                   s.packet_in_service))
 
 
-def source(env, run, script, counter):
-    """a source process: script = [(delay, [(flow, size), ...]), ...]"""
+def source(env, run, script, counter, ages=None):
+    """a source process: script = [(delay, [(flow, size), ...]), ...].  `ages`: the n-th packet handed to the scheduler was created
+    ages[n mod len] before it arrives (it crossed a wire, a port, another hop): its `time` field is its creation instant, not `now`"""
     for delay, burst in script:
         yield env.timeout(delay)
         for flow, size in burst:
             counter[0] += 1
-            run.sched.put(Packet(env.now, size, counter[0], src='src', flow_id=flow))
+            born = env.now - ages[(counter[0] - 1) % len(ages)] if ages else env.now
+            run.sched.put(Packet(born, size, counter[0], src='src', flow_id=flow))
 
 
 def header(c):
@@ -262,7 +264,7 @@ def build_instance(env, c):
     run = StampRun(env, sched, c['kind'])
     counter = [0]
     for script in c['sources']:
-        env.process(source(env, run, script, counter))
+        env.process(source(env, run, script, counter, c.get('ages')))
     for m in c.get('monitors') or []:
         n = [0]
         def dist(n=n, m=m):
@@ -304,13 +306,13 @@ VTICKS = [0.125, 0.25, 0.5, 1.0, 2.0, 1, 2, 3, 0.1, 0.3, 0.001, 1.5]
 FAMILIES = ['random'] * 7 + ['static'] * 3 + ['ties'] * 3 + ['idle'] * 2 + ['edge'] * 4 + ['busyend'] * 2 + ['malformed'] + ['multi'] * 2
 
 
-def gen_multi(rng, cid, kind):
+def gen_multi(rng, cid, kind, aged=0.0):
     """several scheduler instances alive in ONE Environment, each with its own table, sources and monitors, with
     overlapping class ids (the output ports of a switch, the hops of a path): the per-scheduler state of the property
     (finish stamps, virtual time, auxVC) is the state of THAT scheduler.  Every instance is observed, replayed through
     the model as a case of its own, and judged by the stamp and order oracles on its own arrivals only."""
     base = rng.choice(['random', 'random', 'edge', 'static', 'ties', 'idle'])
-    c = gen_case(rng, cid, kind, base)
+    c = gen_case(rng, cid, kind, base, aged=aged)
     c['family'], c['base_family'] = 'multi', base
     classes = [k for k, _ in c['table']]
     c['peers'] = []
@@ -324,11 +326,26 @@ def gen_multi(rng, cid, kind):
     return c
 
 
-def gen_case(rng, cid, kind=None, family=None, share=None, rate=None):
+def gen_case(rng, cid, kind=None, family=None, share=None, rate=None, aged=0.0):
+    """`aged`: share of the cases whose packets reach the scheduler some time after they were created (`Packet.time` < arrival
+    instant, as behind a Wire): "the earlier arrival on equal stamps" is the earlier arrival AT THE SCHEDULER, whatever the packets'
+    own creation stamps say.  The whole workload is shifted by the largest age so that creation instants stay >= 0."""
     kind = kind or rng.choice(['wfq', 'wfq', 'vc'])
     family = family or rng.choice(FAMILIES)
     if family == 'multi':
-        return gen_multi(rng, cid, kind)
+        return gen_multi(rng, cid, kind, aged)
+    c = _gen_case(rng, cid, kind, family, share, rate)
+    if aged and rng.random() < aged:
+        ts = UNIT[c['rate']] * 8.0 / c['rate']
+        c['ages'] = [rng.choice([0, 0, 0, ts, 3 * ts, 2.5 * ts, 10 * ts, 0.5 * ts, 64 * ts]) for _ in range(rng.randint(2, 7))]
+        off = max(c['ages'])
+        for script in c['sources']:
+            if script:
+                script[0] = (script[0][0] + off, script[0][1])
+    return c
+
+
+def _gen_case(rng, cid, kind, family, share=None, rate=None):
     rate = rate if rate is not None else rng.choice(list(UNIT))
     unit = UNIT[rate]
     ts = unit * 8.0 / rate                      # transmission time of one unit
@@ -576,7 +593,11 @@ def order_oracle(run, exp):
                     full_ties += 1
             if kx < kc:
                 why = 'a smaller stamp' if kx[0] < kc[0] else 'the same stamp and an earlier arrival instant'
+                born = ''
+                if chosen.time != kc[1] or x.time != kx[1]:
+                    born = (f' (their `time` fields - creation, not arrival at this scheduler - are {chosen.time!r} and {x.time!r}; '
+                            f'"the earlier arrival on equal stamps" is the earlier arrival at the scheduler)')
                 fails.append({'what': f'at {t} packet {chosen.packet_id} (stamp {kc[0]}, arrived {kc[1]}) was taken for transmission while packet '
-                                      f'{x.packet_id} (stamp {kx[0]}, arrived {kx[1]}) with {why} was waiting', 'signature': 'stamp-order'})
+                                      f'{x.packet_id} (stamp {kx[0]}, arrived {kx[1]}) with {why} was waiting{born}', 'signature': 'stamp-order'})
                 break
     return fails, ties, full_ties
